@@ -5,7 +5,7 @@ pvMoveBufferToHead / pvDeleteBuffer on fabricated lists and on every merge obser
 oracle: the property predicate evaluated inside harness.cpp on the real MemPool with a placement-policy manager."""
 import os, re
 
-GEN = ['gen_uintmath.json', 'gen_poolconst.json', 'gen_mempool.json', 'gen_pool32.json']
+GEN = ['gen_uintmath.json', 'gen_poolconst.json', 'gen_mempool.json', 'gen_pool32.json', 'gen_pooldata.json']
 BASE = 0x200000000000
 BCS = [1, 2, 3, 31, 32, 127]
 CFS = [0, 1, 16]
@@ -35,6 +35,14 @@ def tv_cases(ctx, scale):
         for al in (1, 2, 3, 4, 8, 16, 24, 512, 1024):
             for bc in (1, 2, 32, 127):
                 cs.append('cbs %d %d %d' % (bs, al, bc))
+    # MemPoolConst::GetBlockAlignment (recursive constexpr; generated as a fuelled Fixpoint) and the MemPoolParams(blockSize) constructor using it
+    for bs in sorted(set(list(range(0, 35)) + [2 ** k + d for k in range(5, 64) for d in (-1, 0, 1)] + [2 ** 64 - 1] + [r.below(2 ** r.range(1, 64)) for _ in range(20 * scale)])):
+        for ma in (16, 1, 2, 8, 64, 1024, 2 ** 63, 2 ** 64 - 1, 3, 24, r.range(1, 2 ** r.range(1, 64))):
+            cs.append('gba %d %d' % (bs, ma))
+        if bs < 2 ** 40: cs.append('gbp %d 16 32' % bs)
+    for (m, dm) in ((1, 2), (2, 1), (0, 0), (5, 5), (0, 7)):      # MemPool::Data::Swap (generated): manager identities and counters change places
+        for (a, da) in ((0, 0), (3, 0), (0, 9), (r.below(1000), r.below(1000))):
+            cs.append('dswap %d %d %d %d' % (m, a, dm, da))
     for bc in (0, 1, 2, 126, 127, 128, 129, 2 ** 64 - 1):
         for al in (0, 1, 2, 1023, 1024, 1025, 2 ** 64 - 1):
             cs.append('chk %d %d' % (bc, al))
@@ -130,6 +138,23 @@ def u32_cases(ctx, scale):
     return cs
 
 
+def u32_cases_for_trace(ctx, scale):
+    """the same family as u32_cases (fresh draws) + deterministic shapes: fill k buffers, free in FIFO / LIFO / random order, refill"""
+    r = ctx.rng
+    cs = u32_cases(ctx, scale)
+    for bc in (1, 2, 16, 32):
+        for order in (0, 1, 2):
+            nb = r.range(1, 4); ops = ['a'] * (nb * bc)
+            live = nb * bc
+            for _ in range(r.range(1, live)):
+                ops.append('f:%d' % (0 if order == 0 else 10 ** 9 if order == 1 else r.below(live))); live -= 1
+            ops += ['a'] * r.range(1, nb * bc + bc)
+            if r.chance(1, 2): ops += ['f:%d' % r.below(10 ** 6)] * (3 * bc + 40)      # everything freed: pvClear when more than 2 buffers
+            ops += ['a'] * r.range(0, 3)
+            cs.append('u32 %d %d %d %s' % (bc, r.choice([1, 4, 8, 24]), r.choice([3 * bc, 1000]), ' '.join(ops)))
+    return cs
+
+
 def fab_cases(ctx, scale):
     cs = []
     N = 4 if scale == 1 else 6
@@ -148,7 +173,7 @@ def fab_cases(ctx, scale):
     return cs
 
 
-def gen_hist(r, bc, cf, bs, al, style):
+def gen_hist(r, bc, cf, bs, al, style, fail=None, unequal=False):
     B = correct(bs, al, bc); g = gran(al)
     p0 = 2 * B * bc if bc > 1 else 2 * al
     import math
@@ -197,6 +222,11 @@ def gen_hist(r, bc, cf, bs, al, style):
         ops.append('x0'); live[0] = 0
         A(0, r.range(1, bc + 2)); F(0, r.range(0, live[0])); A(0, r.range(0, 3))
         if r.chance(1, 2): ops.append('x0'); live[0] = 0; A(0, 2)
+    elif style == 5:    # plain growth across several buffer boundaries with interleaved frees (for the failing-manager family)
+        for _ in range(r.range(2, 4)):
+            A(0, r.range(bc - 1, 2 * bc + 1)); F(0, r.range(0, 2), how=r.below(3)); A(1, r.range(0, bc + 1))
+        if r.chance(1, 2): ops.append('s'); live[0], live[1] = live[1], live[0]; A(0, bc)
+        F(0, r.range(0, live[0])); A(0, r.range(0, bc + 1))
     elif style == 4:    # blocks in the cache, then Swap / move assignment, then allocate from the (moved) cache
         A(0, r.range(1, bc + 3)); A(1, r.range(0, bc + 1))
         F(0, r.range(1, max(1, min(live[0], cf if cf else 2))), how=r.below(3))
@@ -217,7 +247,12 @@ def gen_hist(r, bc, cf, bs, al, style):
         F(0, r.range(0, live[0]))
         if r.chance(1, 2): M(0, 1)
     ops = [o for o in ops if o]
-    return 'hist %d %d %d %d %d %s %s' % (bc, cf, bs, al, endmode, ','.join(map(str, res)), ' '.join(ops))
+    resstr = ','.join(map(str, res))
+    if fail:
+        resstr += '!' + ','.join(map(str, sorted(fail)))
+    if unequal:
+        endmode += 8; ops = [o for o in ops if o[0] != 'm']      # MergeFrom needs equal managers
+    return 'hist %d %d %d %d %d %s %s' % (bc, cf, bs, al, endmode, resstr, ' '.join(ops))
 
 
 def hist_cases(ctx, scale, n):
@@ -229,6 +264,16 @@ def hist_cases(ctx, scale, n):
     for (bc, cf, bs, al) in aimed:
         for style in (0, 2, 3, 4) if bc > 1 else (1, 4):
             cs.append(gen_hist(r, bc, cf, bs, al, style))
+    # the memory manager throws std::bad_alloc on its k-th request: k around every buffer creation (each request of a multi-block
+    # pool IS a buffer creation: the first buffer, the look-ahead spare when the head's last block is taken, ...)
+    for (bc, cf) in ((2, 0), (3, 0), (3, 1), (31, 0), (32, 16), (127, 1), (1, 0), (1, 16)):
+        for fail in ({1}, {2}, {3}, {4}, {2, 3}, {1, 2, 5}, {3, 4, 6}, set(r.range(1, 8) for _ in range(3))):
+            for style in ((5,) * (2 if bc <= 3 else 1)):
+                cs.append(gen_hist(r, bc, cf, r.choice([8, 24, 32]), 8, 5, fail=fail))
+    # pools whose memory managers are NOT interchangeable (different identities): Swap / move assignment must move the manager
+    for (bc, cf) in ((1, 1), (2, 0), (3, 1), (32, 16)):
+        for style in (1, 4, 4, 5):
+            cs.append(gen_hist(r, bc, cf, r.choice([8, 24, 40]), r.choice([8, 3, 64]), style, unequal=True))
     for (bc, cf) in ((1, 16), (2, 1), (32, 16), (32, 1)):          # block sizes around 0 and sizeof(void*) (pvUseCache boundary)
         for bs in (0, 1, 7, 8, 9):
             cs.append(gen_hist(r, bc, cf, bs, r.choice([1, 4, 8]), r.choice([1, 3]) if bc > 1 else 1))
@@ -279,6 +324,17 @@ def oracle_lines(ctx, cases, lines):
         elif w[0] in ('fabmg', 'fabmv', 'fabdel'):
             if 'BROKEN' in out or 'ORPHANED' in out or 'LEAK' in out or 'FAIL' in out or 'CRASH' in out or 'missing' in out:
                 bad.append((c, out, 'real list surgery leaves a malformed buffer list: ' + out[:200]))
+        elif w[0] == 'gba':
+            try:
+                bs, ma = int(w[1]), int(w[2]); a = int(out)
+                if ma & (ma - 1) == 0:      # power-of-two maxAlignment: the result is the largest power of two <= maxAlignment and <= max(blockSize, 1)
+                    exp = ma
+                    while exp > 1 and exp > bs: exp //= 2
+                    if a != exp:
+                        bad.append((c, out, 'GetBlockAlignment(%d, %d) = %d, expected the largest power of two <= min(maxAlignment, max(blockSize,1)) = %d' % (bs, ma, a, exp)))
+                    else: ctx.nontrivial.add(c)
+            except ValueError:
+                bad.append((c, out, 'unparsable / failing implementation output: ' + out[:200]))
         elif w[0] == 'nbuf':
             try:
                 bc, B, A, begin = int(w[1]), int(w[3]), int(w[4]), int(w[5])
@@ -378,7 +434,7 @@ def measure(tv, fab, hist, u32, cases, lines):
         k = c.split()[0]
         if (k == 'hist' or k.startswith('hist@')) and out.startswith('ok '):
             m = dict(kv.split('=') for kv in out.split(' |')[0].split()[1:])
-            for f in ('ops', 'buffers', 'merges', 'mergesnt', 'ifs', 'freedif', 'alls', 'swaps', 'moves', 'flushes', 'cachehits', 'returned'):
+            for f in ('ops', 'buffers', 'merges', 'mergesnt', 'ifs', 'freedif', 'alls', 'swaps', 'moves', 'flushes', 'cachehits', 'returned', 'refused'):
                 ev[f] += int(m.get(f, 0))
             nontriv['histories_with_>=2_buffers'] += int(m.get('maxbuffers', 0)) >= 2
             nontriv['histories_with_>=4_buffers'] += int(m.get('maxbuffers', 0)) >= 4
@@ -389,6 +445,8 @@ def measure(tv, fab, hist, u32, cases, lines):
         elif k == 'u32' and out.startswith('ok '):
             m = dict(kv.split('=') for kv in out.split()[1:])
             ev['u32_ops'] += int(m['ops']); ev['u32_refused_at_limit'] += int(m['refused']); ev['u32_manager_allocs'] += int(m['mgrallocs'])
+    nontriv['histories_with_unequal_managers'] = sum(1 for w in hk if int(w[5]) & 8)
+    nontriv['histories_with_a_failing_manager_request'] = sum(1 for w in hk if '!' in w[6])
     d['executed_events_total'] = dict(ev); d['history_classes'] = dict(nontriv)
     d['layout_cases'] = {'nbuf_blockCounts': dict(Counter(c.split()[1] for c in tv if c.startswith('nbuf'))),
                          'nb1+al1_alignments_non_pow2': sum(1 for c in tv if c.split()[0] in ('nb1', 'al1') and not pow2(int(c.split()[4]))),
@@ -424,7 +482,7 @@ def run(ctx):
                         'blockCount*blockSize + 4*blockAlignment + 32 < 2^63 (pvCheckParams alone allows sizes for which pvGetBufferSize wraps, see NOTES.md)',
                         'one pool is used by one thread; MergeFrom operands use equal memory managers and equal parameters (MOMO_CHECKed)']
     ctx.regen(GEN)
-    ctx.prove()
+    ctx.prove(timeout=3000)      # headroom for a cold build on a loaded machine
     harness = ctx.cxx('harness.cpp', 'harness')
     if harness is None:
         ctx.stage('build-harness', False, getattr(ctx, 'last_cxx_error', ''))
@@ -451,13 +509,21 @@ def run(ctx):
             k = next((j for j, (x, y) in enumerate(zip(a.split(), b.split())) if x != y), -1)
             ctx.violation('concrete pool model and the real pool state disagree (first differing op #%d)' % k,
                           {'case': c[:3000], 'impl': a[:1500], 'model': b[:1500], 'first_differing_op': k}, found_input=True)
+    if have_model:
+        u32t = ['u32tr' + c[3:] for c in u32_cases_for_trace(ctx, scale)]
+        mism, _ = ctx.correspond('u32-free-list-trace', u32t, [harness], [ctx.model_exe])
+        ctx.tie_obligations.append({'name': 'GENERATED MemPoolUInt32 Allocate/Deallocate/DeallocateAll (returned handle, mBlockHead, buffer count, mAllocCount, free-list order walked through the real block memory) == real pool after EVERY op of %d histories' % len(u32t), 'ok': not mism})
+        for (i, c, a, b) in mism[:2]:
+            k = next((j for j, (x, y) in enumerate(zip(a.split(), b.split())) if x != y), -1)
+            ctx.violation('generated MemPoolUInt32 model and the real 32-bit-handle pool disagree (first differing op #%d)' % k,
+                          {'case': c[:3000], 'impl': a[:1500], 'model': b[:1500], 'first_differing_op': k}, found_input=True)
     # ---- the oracle on the real code (always; bigger generator when a stage broke = search stage)
     if any(not s['ok'] for s in ctx.stages.values()):
         ctx.log('a stage broke: searching the implementation for a failing input with the thorough generator')
         hist = hist + hist_cases(ctx, 6, 4000)
         tv = tv + layout_cases(ctx, 4)
     u32 = u32_cases(ctx, scale)
-    cases = [c for c in tv if c.startswith('nb') or c.startswith('al1') or c.startswith('ctor')] + fab + hist + u32
+    cases = [c for c in tv if c.startswith('nb') or c.startswith('al1') or c.startswith('ctor') or c.startswith('gba ')] + fab + hist + u32
     rc, lines, err = run_harness(ctx, harness, cases, 'oracle')
     ctx.evaluations += len(cases)
     bad = oracle_lines(ctx, cases, lines)
